@@ -1,6 +1,6 @@
 (* Model/Top.v — the model's entry points on wire text: one case line in, one result line
    out.  Instantiates the evaluator's oracles from the case's oracle table. *)
-From JV Require Export Model.Wire Base.Decimal.
+From JV Require Export Model.Wire Base.Decimal Model.LibDispatch Model.Parser.
 Local Open Scope nat_scope.
 Local Open Scope list_scope.
 
@@ -17,7 +17,7 @@ Definition initial_world (input : ovalue) (clock : Z) : world :=
 
 Definition run_eval (xlib : string -> list carg -> option (lres ovalue))
            (tbl : list (string * string)) (fuel : nat) (n : node) (input : ovalue) (clock : Z)
-  : res ovalue :=
+  : Value.res ovalue :=
   eval format_json_number (regex_from_table tbl) (pow_from_table tbl) xlib
        fuel n input 0 (initial_world input clock).
 
@@ -39,4 +39,86 @@ Definition run_case_with (xlib : string -> list carg -> option (lres ovalue)) (l
   | _ => "?|X bad-line"%string
   end.
 
-Definition run_case := run_case_with xlib_none.
+Definition str_from_table (pfx : string) (tbl : list (string * string)) (s : string) : option string :=
+  match assoc_get (pfx ++ hex_of_string s)%string tbl with
+  | Some a => string_of_hex a
+  | None => None
+  end.
+
+Definition xlib_of_table (tbl : list (string * string)) :=
+  xlib (str_from_table "UP:" tbl) (str_from_table "LOW:" tbl).
+
+Definition run_case (line : string) : string :=
+  match fields line with
+  | _ :: _ :: _ :: _ :: _ :: orc :: _ => run_case_with (xlib_of_table (oracle_table orc)) line
+  | _ => run_case_with xlib_none line
+  end.
+
+
+(* ---- parser cases:  id|P|<source hex>|<oracle table>  ->  id|A <ast wire>  or
+   id|E <type> <pos> S<token> S<hint> .  regexp.Compile verdicts (REC:<hex>= empty for ok, else
+   hex of the syntax error code) and %q renderings (QT:<hex>=<hex>) come from the oracle table;
+   a miss travels inside the error hint between the markers below and becomes a Q answer. *)
+Definition need_open : string := String (ascii_of_Z 1) "NEED:".
+Definition need_close : string := String (ascii_of_Z 2) "".
+
+Definition parse_number_of_decimal (s : string) : numlit :=
+  match parse_float s with PFOk x => NumOk x | PFRange _ => NumRange | PFSyntax => NumSyntax end.
+
+Definition regex_check_from_table (tbl : list (string * string)) (src : string) : option string :=
+  let key := ("REC:" ++ hex_of_string src)%string in
+  match assoc_get key tbl with
+  | Some a => if seqb a "" then None else
+              match string_of_hex a with Some c => Some c | None => Some "bad-oracle" end
+  | None => Some (need_open ++ key ++ need_close)%string
+  end.
+Definition quote_from_table (tbl : list (string * string)) (s : string) : string :=
+  let key := ("QT:" ++ hex_of_string s)%string in
+  match assoc_get key tbl with
+  | Some a => match string_of_hex a with Some q => q | None => "bad-oracle"%string end
+  | None => (need_open ++ key ++ need_close)%string
+  end.
+
+Definition find_need (s : string) : option string :=
+  match sindex need_open s with
+  | Some i => let rest := sdrop (i + slen need_open) s in
+              match sindex need_close rest with
+              | Some j => Some (stake j rest)
+              | None => None
+              end
+  | None => None
+  end.
+
+Definition parse_with_table (tbl : list (string * string)) (src : string) : Lexer.res node :=
+  parse parse_number_of_decimal (regex_check_from_table tbl) format_float_g (quote_from_table tbl)
+        (parse_fuel src) src.
+
+Definition run_parse_case (line : string) : string :=
+  match fields line with
+  | id :: _ :: srchex :: orc :: _ =>
+      let out :=
+        match string_of_hex srchex with
+        | None => "X bad-hex"%string
+        | Some src =>
+            match parse_with_table (oracle_table orc) src with
+            | ROk n => ("A " ++ node_to_wire n)%string
+            | RErr e =>
+                match find_need (ehint e) with
+                | Some q => ("Q " ++ q)%string
+                | None => ("E " ++ string_of_nat (etype e) ++ " " ++ string_of_Z (epos e) ++ " "
+                           ++ String "S" (hex_of_string (etoken e)) ++ " " ++ String "S" (hex_of_string (ehint e)))%string
+                end
+            | RPanic w => ("P " ++ String "S" (hex_of_string w))%string
+            | RFuel => "X fuel"%string
+            end
+        end in
+      (id ++ "|" ++ out)%string
+  | _ => "?|X bad-line"%string
+  end.
+
+(* one entry point for the driver: dispatch on the kind field *)
+Definition run_line (line : string) : string :=
+  match fields line with
+  | _ :: kind :: _ => if seqb kind "P" then run_parse_case line else run_case line
+  | _ => "?|X bad-line"%string
+  end.
